@@ -187,6 +187,7 @@ let () =
     end);
   register "clisumcopy" (fun tk ->
     let kv = kv_of tk in
+    apply_live kv;
     let items = parse_items kv in
     let o = copy_opts kv in
     if get kv "items" "-" = "BADPATTERN" then obs "clisumcopy err"
